@@ -58,6 +58,13 @@ Theorem C16_sqlite_roundtrip : forall cs, forallb client_ok cs = true ->
     db_clients db = Some (map (fun c => (fst c, canon (client_value c))) cs).
 Proof. exact sqlite_roundtrip. Qed.
 
+(* checkpoints: after save_checkpoint(state s, round r, keep >= 1) into a directory whose
+   rounds are all <= r -- including a directory that ALREADY holds round r, with any state --
+   load_latest_checkpoint returns (s, r): the last save wins *)
+Theorem C16_checkpoint_last_save_wins : forall d r s keep, 1 <= keep -> Forall (fun e => fst e <= r) d ->
+  ck_load (ck_save d r s keep) = Some (r, s).
+Proof. exact checkpoint_last_save_wins. Qed.
+
 (* non-vacuity: a byte-swapped, reversed int16 view inside a dict, next to a bytes
    array, a numpy scalar and a big python int *)
 Example C16_example :
@@ -68,7 +75,9 @@ Example C16_example :
   roundtrip v = Some (VDict [[120]; [121]; [122]; [119]]
                             [VArr (mk_carr I16 [3%nat] [65535; 2; 513]);
                              VObj [2%nat] [OBytes []; OBytes [0; 255]]; VNpScalar F16 32768; VInt (2 ^ 64 - 1)]) /\
-  roundtrip (VList [VTuple []]) = None /\ roundtrip (VInt (2 ^ 64)) = None.
+  roundtrip (VList [VTuple []]) = None /\ roundtrip (VInt (2 ^ 64)) = None /\
+  ck_run [CkSave 0 1 1; CkSave 0 2 1; CkLoad; CkSave 5 3 2; CkSave 3 4 2; CkLoad; CkSave 5 6 1; CkLoad] [] =
+    [Some (0, 2); Some (5, 3); Some (5, 6)].
 Proof. vm_compute. repeat split. Qed.
 
 Print Assumptions C16_roundtrip_supported.
@@ -78,3 +87,4 @@ Print Assumptions C16_unsupported_rejected.
 Print Assumptions C16_never_altered.
 Print Assumptions C16_dispatch_total.
 Print Assumptions C16_sqlite_roundtrip.
+Print Assumptions C16_checkpoint_last_save_wins.
